@@ -84,6 +84,27 @@ fn big_on_small_stack(name: &str, code: i128, expect: (usize, u64), f: fn() -> (
     }
 }
 
+/// a 1 KiB element: few elements already make a multi-MiB array (a "small array" fast
+/// path keyed on the element COUNT would put these on the stack)
+#[derive(Clone, Copy)]
+struct K1([u64; 128]);
+impl Default for K1 {
+    fn default() -> K1 {
+        K1([3; 128])
+    }
+}
+impl K1 {
+    fn of(i: usize) -> K1 {
+        let mut a = [0u64; 128];
+        a[0] = i as u64;
+        a[127] = 1;
+        K1(a)
+    }
+    fn sum(&self) -> u64 {
+        self.0.iter().sum()
+    }
+}
+
 fn big() {
     note("the clause 'boxed constructors build arrays far larger than the thread's stack' is not expressible in the hub model; it is established only by this run: each constructor builds a 4-32 MiB array on a thread whose stack is 256 KiB (a stack round-trip of the array would overflow it and kill the process)");
     big_on_small_stack("default_boxed::<u64, 4Mi>", 0, (33554432, 4194304), || {
@@ -111,6 +132,27 @@ fn big() {
         let v = GenericArray::into_vec(b);
         let b = GenericArray::<u64, Big>::try_from_vec(v).unwrap();
         (std::mem::size_of_val(&*b), b[0] + b[4194303] + b[12345])
+    });
+    // few LARGE elements (4096 x 1 KiB = 4 MiB; 1024 x 1 KiB = 1 MiB)
+    big_on_small_stack("default_boxed::<K1 (1 KiB), 4096>", 6, (4194304, 1572864), || {
+        let b = GenericArray::<K1, U4096>::default_boxed();
+        (std::mem::size_of_val(&*b), b.iter().map(|k| k.sum()).sum::<u64>())
+    });
+    big_on_small_stack("Box::<GenericArray<K1, 4096>>::generate", 7, (4194304, 8390656), || {
+        let b = Box::<GenericArray<K1, U4096>>::generate(K1::of);
+        (std::mem::size_of_val(&*b), b.iter().map(|k| k.sum()).sum::<u64>())
+    });
+    big_on_small_stack("box_arr![K1; 1024]", 8, (1048576, 393216), || {
+        let b: Box<GenericArray<K1, U1024>> = box_arr![K1::default(); U1024];
+        (std::mem::size_of_val(&*b), b.iter().map(|k| k.sum()).sum::<u64>())
+    });
+    big_on_small_stack("boxed from_iter (collect::<Box<GenericArray<K1, 4096>>>)", 9, (4194304, 8390656), || {
+        let b: Box<GenericArray<K1, U4096>> = (0..4096usize).map(K1::of).collect();
+        (std::mem::size_of_val(&*b), b.iter().map(|k| k.sum()).sum::<u64>())
+    });
+    big_on_small_stack("Box::<GenericArray<K1, 1024>>::generate (1 MiB)", 10, (1048576, 524800), || {
+        let b = Box::<GenericArray<K1, U1024>>::generate(K1::of);
+        (std::mem::size_of_val(&*b), b.iter().map(|k| k.sum()).sum::<u64>())
     });
 }
 
